@@ -49,6 +49,7 @@ func newExecutionContext(n int) *executionContext {
 
 func (t *transition) executeTxsConcurrent(level int, l module.TransactionList, ctx contract.Context, rctBuf []txresult.Receipt) error {
 	ec := newExecutionContext(level)
+	initialSnapshot := ctx.GetProperty(contract.PropInitialSnapshot)
 
 	cnt := 0
 	for i := l.Iterator(); i.Has(); i.Next() {
@@ -77,6 +78,7 @@ func (t *transition) executeTxsConcurrent(level int, l module.TransactionList, c
 			return err2
 		}
 		ctx = t.newContractContext(wc)
+		ctx.SetProperty(contract.PropInitialSnapshot, initialSnapshot)
 
 		ec.Ready()
 		go func(ctx contract.Context, wc state.WorldContext, txo transaction.Transaction, cnt int, rb *txresult.Receipt) {
@@ -128,6 +130,7 @@ func (t *transition) executeTxsConcurrent(level int, l module.TransactionList, c
 					break
 				}
 				ctx = t.newContractContext(wc)
+				ctx.SetProperty(contract.PropInitialSnapshot, initialSnapshot)
 			}
 			wvs.Commit()
 			ec.Done()
